@@ -6,7 +6,7 @@
 # On success the change is stored as /verif/seeded/<seed-id>/{patch.diff,demo.py,meta.json(stub)}.
 out=$1; i=$2; id=$3; prop=$4
 # the demos assert that the library is imported from the seeder's own worktree, so that path is reused
-W=/tmp/mut-$prop
+W=${SEED_WT:-/tmp/mut-$prop}
 [ -d $W ] || git -C /repo worktree add --detach -q $W HEAD || exit 2
 cd $W; git checkout -q -- . ; [ -z "$(git status --short)" ] || { echo "$W not clean"; exit 2; }
 run_demo() { PYTHONPATH=$W NUMBA_CACHE_DIR=/tmp/seedconfirm-cache-$id timeout 900 /venv/bin/python $out/demo$i.py >/tmp/seedconfirm-$id.demo.log 2>&1; echo $?; }
